@@ -52,8 +52,23 @@ def opMatches (op : AttrOp) (ins : Bool) (actual operand : Bytes) : Bool :=
   | .sfx => !operand.isEmpty && isSuffixCase ins operand actual
   | .substring => !operand.isEmpty && isInfixCase ins operand actual
 
+/-- The leaf predicates matching is parameterised by, so that the structural part of C04 (trie,
+    compiler, VM, stack) can be stated against the leaves *as coded* and the leaves themselves against
+    CSS separately. -/
+structure Leaf where
+  /-- `:nth-*(an+b)` on a 1-based index -/
+  nth : Int → Int → Nat → Bool
+  /-- attribute operator on a present value: operator, ASCII-case-insensitive?, actual, operand -/
+  op : AttrOp → Bool → Bytes → Bytes → Bool
+
+/-- CSS Selectors semantics of the leaves -/
+def cssLeaf : Leaf := ⟨nthMatches, opMatches⟩
+
+/-- the leaves as lol-html computes them -/
+def codeLeaf : Leaf := ⟨fun a b i => hasIndex a b i, opMatchesCode⟩
+
 mutual
-def matchesSimple (e : Elem) : Simple → Bool
+def matchesSimple (L : Leaf) (e : Elem) : Simple → Bool
   | .type n => localNameEq e.tag.name n
   | .universal => true
   | .id v => attrValue e.tag idAttr == some v
@@ -64,19 +79,19 @@ def matchesSimple (e : Elem) : Simple → Bool
   | .attrExists n => (attrValue e.tag n).isSome
   | .attr n op v cs =>
     match attrValue e.tag n with
-    | some actual => opMatches op (toUnconditional cs (e.tag.ns == .html)) actual v
+    | some actual => L.op op (toUnconditional cs (e.tag.ns == .html)) actual v
     | none => false
-  | .nthChild a b => nthMatches a b e.childIndex
-  | .nthOfType a b => nthMatches a b e.typeIndex
-  | .firstChild => e.childIndex == 1
-  | .firstOfType => e.typeIndex == 1
-  | .not args => !matchesAnyCompound e args
-def matchesCompound (e : Elem) : List Simple → Bool
+  | .nthChild a b => L.nth a b e.childIndex
+  | .nthOfType a b => L.nth a b e.typeIndex
+  | .firstChild => L.nth 0 1 e.childIndex
+  | .firstOfType => L.nth 0 1 e.typeIndex
+  | .not args => !matchesAnyCompound L e args
+def matchesCompound (L : Leaf) (e : Elem) : List Simple → Bool
   | [] => true
-  | s :: ss => matchesSimple e s && matchesCompound e ss
-def matchesAnyCompound (e : Elem) : List (List Simple) → Bool
+  | s :: ss => matchesSimple L e s && matchesCompound L e ss
+def matchesAnyCompound (L : Leaf) (e : Elem) : List (List Simple) → Bool
   | [] => false
-  | c :: cs => matchesCompound e c || matchesAnyCompound e cs
+  | c :: cs => matchesCompound L e c || matchesAnyCompound L e cs
 end
 
 /-- `f` holds for some ancestor (given with *its* ancestors) -/
@@ -87,29 +102,29 @@ def anyAncestor (f : Elem → List Elem → Bool) : List Elem → Bool
 /-- Right-to-left matching: `c` is the compound for `e`, `rest` the remaining
     `(combinator to the left of the previous compound, compound)` pairs, `anc` the ancestors of `e`,
     parent first. -/
-def matchesRev : List (Comb × Compound) → Compound → Elem → List Elem → Bool
-  | [], c, e, _ => matchesCompound e c
+def matchesRev (L : Leaf) : List (Comb × Compound) → Compound → Elem → List Elem → Bool
+  | [], c, e, _ => matchesCompound L e c
   | (k, c') :: rest, c, e, anc =>
-    matchesCompound e c &&
+    matchesCompound L e c &&
       match k with
       | .child =>
         match anc with
         | [] => false
-        | p :: anc' => matchesRev rest c' p anc'
-      | .descendant => anyAncestor (matchesRev rest c') anc
+        | p :: anc' => matchesRev L rest c' p anc'
+      | .descendant => anyAncestor (matchesRev L rest c') anc
 
 def revTail (cur : Compound) (acc : List (Comb × Compound)) :
     List (Comb × Compound) → Compound × List (Comb × Compound)
   | [] => (cur, acc)
   | (k, c) :: rest => revTail c ((k, cur) :: acc) rest
 
-def matchesComplex (cx : Complex) (e : Elem) (anc : List Elem) : Bool :=
+def matchesComplex (L : Leaf) (cx : Complex) (e : Elem) (anc : List Elem) : Bool :=
   let r := revTail cx.head [] cx.tail
-  matchesRev r.2 r.1 e anc
+  matchesRev L r.2 r.1 e anc
 
 /-- A selector list matches when one of its complex selectors does. -/
-def «matches» (sel : SelList) (e : Elem) (anc : List Elem) : Bool :=
-  sel.any fun cx => matchesComplex cx e anc
+def «matches» (L : Leaf) (sel : SelList) (e : Elem) (anc : List Elem) : Bool :=
+  sel.any fun cx => matchesComplex L cx e anc
 
 /-! ## The tree induced by a tag-event sequence -/
 
@@ -162,22 +177,22 @@ def TreeState.step (s : TreeState) (enableEsiTags : Bool) : Event → TreeState
   | .end_ n => s.endTag n
 
 /-- selectors (by index) that match the element a start tag creates -/
-def matchingIds (sels : List SelList) (e : Elem) (anc : List Elem) : List Nat :=
+def matchingIds (L : Leaf) (sels : List SelList) (e : Elem) (anc : List Elem) : List Nat :=
   (List.range sels.length).filter fun i =>
     match sels[i]? with
-    | some s => «matches» s e anc
+    | some s => «matches» L s e anc
     | none => false
 
-def runAux (sels : List SelList) (esi : Bool) :
+def runAux (L : Leaf) (sels : List SelList) (esi : Bool) :
     TreeState → List Event → Nat → List (Nat × Nat) → List (Nat × Nat)
   | _, [], _, acc => acc
   | s, .start t :: rest, ord, acc =>
-    let ids := matchingIds sels (s.elemFor t) s.ancestors
-    runAux sels esi (s.startTag t esi) rest (ord + 1) (acc ++ ids.map fun i => (i, ord))
-  | s, .end_ n :: rest, ord, acc => runAux sels esi (s.endTag n) rest ord acc
+    let ids := matchingIds L sels (s.elemFor t) s.ancestors
+    runAux L sels esi (s.startTag t esi) rest (ord + 1) (acc ++ ids.map fun i => (i, ord))
+  | s, .end_ n :: rest, ord, acc => runAux L sels esi (s.endTag n) rest ord acc
 
 /-- Hits `(selector index, start-tag ordinal)` under CSS semantics on the induced tree. -/
-def run (sels : List SelList) (enableEsiTags : Bool) (evs : List Event) : List (Nat × Nat) :=
-  runAux sels enableEsiTags {} evs 0 []
+def run (L : Leaf) (sels : List SelList) (enableEsiTags : Bool) (evs : List Event) : List (Nat × Nat) :=
+  runAux L sels enableEsiTags {} evs 0 []
 
 end LolHtml.Spec.Css
